@@ -802,6 +802,54 @@ def r00(ctx, repo, files=None):
                         'covariate coefficients included)' % (
                             U(c)[:50], norm_stmt(a_)[:50]))
                     break
+        # L31b: ... or by a *query* that the wrapper answers differently
+        # from the model it wraps (it overrides the method with more than a
+        # pass-through): counts, names and index tables of the wrapped model
+        # are in the wrapped model's coordinates, the data at hand in the
+        # wrapper's
+        for a_ in ast.walk(fn):
+            if not (isinstance(a_, ast.Assign) and len(a_.targets) == 1
+                    and isinstance(a_.targets[0], ast.Name)
+                    and isinstance(a_.value, ast.Call)
+                    and isinstance(a_.value.func, ast.Attribute)
+                    and a_.value.func.attr in UNWRAP
+                    and U(a_.value.func.value) in (
+                        a_.targets[0].id, 'self._' + a_.targets[0].id)):
+                continue
+            x_ = a_.targets[0].id
+            wrappers_ = [k for k in repo.classes
+                         if a_.value.func.attr in repo.classes[k].methods]
+            for c in ast.walk(fn):
+                if not (isinstance(c, ast.Call) and isinstance(
+                        c.func, ast.Attribute) and U(c.func.value) == x_
+                        and c.lineno > a_.lineno
+                        and c.func.attr not in EVALS_
+                        and c.func.attr not in UNWRAP):
+                    continue
+                m_ = c.func.attr
+                for w_ in sorted(wrappers_):
+                    wf = repo.classes[w_].methods.get(m_)
+                    if wf is None:
+                        continue
+                    body_ = repo.body_wo_doc(wf)
+                    passthrough = len(body_) == 1 and isinstance(
+                        body_[0], ast.Return) and isinstance(
+                        body_[0].value, ast.Call) and isinstance(
+                        body_[0].value.func, ast.Attribute) \
+                        and body_[0].value.func.attr == m_
+                    if passthrough:
+                        continue
+                    bad += 1
+                    ctx.violation(
+                        rule, repo.loc(c, cls, fn.name), construct,
+                        'L31 query after unwrap %s.%s' % (x_, m_),
+                        '`%s` asks the wrapped model after `%s` replaced '
+                        'the wrapper; %s.%s answers differently (it is not a '
+                        'pass-through), so the answer is in the wrapped '
+                        'model\'s coordinates while the vectors at hand are '
+                        'the wrapper\'s' % (U(c)[:50], norm_stmt(a_)[:50],
+                                            w_, m_))
+                    break
         # L32: a one-shot iterator (enumerate / zip / map / filter / iter /
         # generator expression) bound to a name outside a loop and iterated
         # inside it is empty from the second pass on
